@@ -216,6 +216,19 @@ class C08(FMonitor):
                 d = self.delay_of(led, n, nid, k)
                 if d is None:
                     continue
+                if led.env.now >= t_pull + d and n.blocking and (id(it), nid) in led.offers:
+                    # finished and still here: every permitted out-edge must be unable to accept it.  A place that is only
+                    # "reserved" by a process that no longer exists is a free place.
+                    for e in (n.out_edges or []):
+                        if tname(e) not in ("Buffer", "Fleet"):
+                            continue
+                        if n.out_edge_selection != "FIRST_AVAILABLE":
+                            continue
+                        alive = [g for g in led.live_tokens(e, "p", "granted") if proc_alive(g.proc)]
+                        if e.capacity - led.held(e) - len(alive) > 0:
+                            led.V("C08", "leaves-when-an-edge-accepts", "%s still holds finished %s at the end of instant %s although out-edge %s holds %d of %d items and no live process has a place reserved there"
+                                  % (nid, it.id, led.env.now, e.id, led.held(e), e.capacity), node="Machine", orphan_reservation=len(alive) < len(led.live_tokens(e, "p", "granted")))
+                            return
                 if led.env.now >= t_pull + d and (id(it), nid) not in led.offers:
                     led.V("C08", "offered-exactly-one-delay-after-pull", "%s pulled %s at %s with delay %s and has not offered it by the end of instant %s"
                           % (nid, it.id, t_pull, d, led.env.now), node="Machine", late=True)
